@@ -60,7 +60,7 @@ class DiagnosticCollector:
             The current time
         """
         ti = t//self.dt
-        idx = ti % self.saveStep
+        idx = int(ti % self.saveStep)
 
         self.diagnostics[0, idx] = t
         self.diagnostics[1, idx] = self.l2_phi_class.l2NormSquared(phi)
